@@ -395,7 +395,7 @@ def check(run):
     C05.check_refill(run, "R03.1")
     C05.check_typestate(run, "R03.1")
     run.floors.pop("R03.1", None)
-    run.floor("R03.1", 8, "decoder window obligations")
+    run.floor("R03.1", 10, "decoder window obligations")
     check_subscripts(run, "R03.2", fns)
     check_taint(run, "R03.3", fns)
     check_recursion(run, "R03.4", reach, cg, mains)
